@@ -180,6 +180,11 @@ pub struct E2eCase {
     /// depend on it
     #[serde(default)]
     pub no_connect_timeout: bool,
+    /// table entries (not live) whose listener never answers: backlog 0 with a full accept queue, the
+    /// SYN is dropped and the attempt stays in progress. The next address is then tried after the
+    /// stagger delay (happy-eyeballs timeout 1.2 s / number of addresses) - in the sorted order.
+    #[serde(default)]
+    pub hang: Vec<bool>,
 }
 
 /// candidate loopback addresses: three IPv4, one IPv6, two IPv4-mapped IPv6
@@ -226,7 +231,28 @@ impl Engine for E2eEngine {
         "addrsort-e2e"
     }
     fn run_case(&self, case: &E2eCase) -> CaseReport {
+        // A deviating outcome of a run that took long enough for machine load to explain it is not
+        // judged on one run: the case is repeated, and only the same deviation three times in a row counts.
+        let (rep, slow) = self.run_once(case);
+        let Some((key, _)) = slow else { return rep };
+        let (rep2, slow2) = self.run_once(case);
+        if slow2.as_ref().map(|k| &k.0) != Some(&key) {
+            return rep2;
+        }
+        let (mut rep3, slow3) = self.run_once(case);
+        if let Some((k3, desc)) = slow3 {
+            if k3 == key {
+                rep3.violate("C16/e2e-deviates-repeatedly", format!("three runs in a row: {desc}"));
+            }
+        }
+        rep3
+    }
+}
+
+impl E2eEngine {
+    fn run_once(&self, case: &E2eCase) -> (CaseReport, Option<(String, String)>) {
         let mut rep = CaseReport::default();
+        let mut slow_key: Option<(String, String)> = None;
         let rt = tokio::runtime::Builder::new_current_thread().enable_all().build().unwrap();
         let res: Result<(), String> = rt.block_on(async {
             use hyperdriver::client::conn::transport::tcp::{TcpTransport, TcpTransportConfig};
@@ -240,11 +266,14 @@ impl Engine for E2eEngine {
             // handed out again at any moment: a thorough run once connected to a neighbour's listener).
             let mut listeners: Vec<(usize, tokio::net::TcpListener)> = vec![];
             let mut holders: Vec<socket2::Socket> = vec![];
+            let mut fillers: Vec<socket2::Socket> = vec![];
+            let hanging = |i: usize| case.hang.get(i).copied().unwrap_or(false) && !case.live.get(i).copied().unwrap_or(false);
             let mut port = 0u16;
             let mut reserved = false;
             'outer: for _attempt in 0..50 {
                 listeners.clear();
                 holders.clear();
+                fillers.clear();
                 port = 0;
                 if !case.live.iter().take(tab.len()).any(|l| *l) {
                     match bound_unlistened(SocketAddr::new(IpAddr::V4(Ipv4Addr::LOCALHOST), 0)) {
@@ -282,7 +311,23 @@ impl Engine for E2eEngine {
                             }
                         } else {
                             match bound_unlistened(SocketAddr::new(bind_ip, port)) {
-                                Ok(h) => holders.push(h),
+                                Ok(h) => {
+                                    if hanging(i) {
+                                        // backlog 0, never accepted: one connection fills the queue, further SYNs are dropped
+                                        if h.listen(0).is_err() {
+                                            continue 'outer;
+                                        }
+                                        for _ in 0..4 {
+                                            let domain = if bind_ip.is_ipv4() { socket2::Domain::IPV4 } else { socket2::Domain::IPV6 };
+                                            if let Ok(f) = socket2::Socket::new(domain, socket2::Type::STREAM, None) {
+                                                let _ = f.set_nonblocking(true);
+                                                let _ = f.connect(&SocketAddr::new(bind_ip, port).into());
+                                                fillers.push(f);
+                                            }
+                                        }
+                                    }
+                                    holders.push(h)
+                                }
                                 Err(_) => continue 'outer,
                             }
                         }
@@ -303,7 +348,13 @@ impl Engine for E2eEngine {
                 .map(|i| SocketAddr::new(tab[*i as usize % tab.len()], 1))
                 .collect();
             let mut cfg = TcpTransportConfig::default();
-            cfg.happy_eyeballs_timeout = Some(std::time::Duration::from_secs(4));
+            let any_hang = (0..tab.len()).any(|i| hanging(i));
+            if any_hang {
+                // let the filling connections settle in the accept queues
+                tokio::time::sleep(std::time::Duration::from_millis(20)).await;
+            }
+            let he_timeout = if any_hang { std::time::Duration::from_millis(1200) } else { std::time::Duration::from_secs(4) };
+            cfg.happy_eyeballs_timeout = Some(he_timeout);
             cfg.happy_eyeballs_concurrency = Some(1);
             cfg.connect_timeout = if case.no_connect_timeout { None } else { Some(std::time::Duration::from_secs(2)) };
             cfg.local_address_ipv4 = case.bound.0.then_some(if case.wildcard.0 { Ipv4Addr::UNSPECIFIED } else { Ipv4Addr::LOCALHOST });
@@ -316,7 +367,7 @@ impl Engine for E2eEngine {
             let result = transport.oneshot(parts).await;
             // real sockets, real clock: when the machine is so loaded that the connect took long enough
             // for a stagger tick or a timeout to interfere, a deviating outcome proves nothing
-            let slow = t_connect.elapsed() >= std::time::Duration::from_millis(150);
+            let elapsed = t_connect.elapsed();
 
             // expected: first live address of the specified order
             let with_port: Vec<SocketAddr> = answer.iter().map(|a| SocketAddr::new(a.ip(), port)).collect();
@@ -333,13 +384,26 @@ impl Engine for E2eEngine {
                     _ => true,
                 }
             };
+            let is_hang = |a: &SocketAddr| tab.iter().position(|t| *t == a.ip()).map(|i| hanging(i)).unwrap_or(false) && reachable(a);
             let expected = order.iter().find(|a| is_live(a) && reachable(a)).copied();
+            // every hanging address in front of the expected one costs one stagger delay
+            let stagger = he_timeout / order.len().max(1) as u32;
+            let hangs_before = order.iter().take_while(|a| !(is_live(a) && reachable(a))).filter(|a| is_hang(a)).count() as u32;
+            let expected_at = stagger * hangs_before;
+            let slow = elapsed >= expected_at + std::time::Duration::from_millis(150);
+            if hangs_before > 0 && expected.is_some() {
+                rep.class("hanging-address-before-the-expected-one");
+            }
             match (result, expected) {
                 (Ok(stream), Some(exp)) => {
                     let peer = stream.peer_addr().map_err(|e| e.to_string())?;
                     // hyperdriver reports IPv4-mapped peers in canonical (IPv4) form
                     if (peer.ip().to_canonical() != exp.ip().to_canonical() || peer.port() != port) && slow {
                         rep.class("slow-connect-inconclusive");
+                        slow_key = Some((
+                            format!("connected to {} where {} is expected", peer.ip().to_canonical(), exp.ip().to_canonical()),
+                            format!("resolver answer {answer:?}, live {:?}, hanging {:?}, binding {:?}: connected to {peer} after {elapsed:?}, specification order {order:?} expects {exp} after about {expected_at:?}", case.live, case.hang, case.bound),
+                        ));
                     } else if peer.ip().to_canonical() != exp.ip().to_canonical() || peer.port() != port {
                         rep.violate(
                             "C16/e2e-wrong-address-connected",
@@ -358,7 +422,13 @@ impl Engine for E2eEngine {
                         format!("connected to {peer} although no candidate in {answer:?} is live"),
                     );
                 }
-                (Err(_), Some(_)) if slow => rep.class("slow-connect-inconclusive"),
+                (Err(e), Some(exp)) if slow => {
+                    rep.class("slow-connect-inconclusive");
+                    slow_key = Some((
+                        format!("failed where a connection to {} is expected", exp.ip().to_canonical()),
+                        format!("resolver answer {answer:?}, live {:?}, hanging {:?}, binding {:?}: connect failed ({e}) after {elapsed:?} although {exp} of {order:?} is live and due after about {expected_at:?}", case.live, case.hang, case.bound),
+                    ));
+                }
                 (Err(e), Some(exp)) => {
                     rep.violate(
                         "C16/e2e-failed-with-live-candidate",
@@ -370,12 +440,13 @@ impl Engine for E2eEngine {
             rep.nontrivial = answer.len() >= 3 && live_n >= 1 && order.iter().position(|a| is_live(a)).unwrap_or(0) >= 1;
             drop(listeners);
             drop(holders);
+            drop(fillers);
             Ok(())
         });
         if let Err(e) = res {
             rep.internal_error = Some(e);
         }
-        rep
+        (rep, slow_key)
     }
 }
 
@@ -387,6 +458,7 @@ pub fn e2e_strategy() -> impl proptest::strategy::Strategy<Value = E2eCase> {
         (any::<bool>(), any::<bool>()),
         (any::<bool>(), any::<bool>()),
         any::<bool>(),
+        prop_oneof![3 => Just(vec![]), 1 => proptest::collection::vec(any::<bool>(), 6)],
     )
-        .prop_map(|(addrs, live, bound, wildcard, no_connect_timeout)| E2eCase { addrs, live, bound, wildcard, no_connect_timeout })
+        .prop_map(|(addrs, live, bound, wildcard, no_connect_timeout, hang)| E2eCase { addrs, live, bound, wildcard, no_connect_timeout, hang })
 }
